@@ -30,7 +30,7 @@ type Ctx struct {
 	Tier        string
 	NFiles      int
 	NFuncs      int
-	NNormalised int // statements brought into the normal spelling (see normalise.go)
+	NNormalised int           // statements brought into the normal spelling (see normalise.go)
 	NoopGuards  []*ast.IfStmt // `if c { continue }` at the very end of a round, dropped by the normaliser
 
 	decls map[*types.Func]*ast.FuncDecl
